@@ -67,6 +67,8 @@ def gen_cases(tier: str, seed: int):
             cfg["init"] = "dict"
         if cfg["front_end"] == "hmc" and cfg["init"] == "dict":  # the HMC front end documents arrays or ChainState only
             cfg["init"] = "state"
+        if cfg["front_end"] == "mcmc" and rng.integers(0, 2):
+            cfg["extra_transition"] = True  # two transitions with statistics of the same names
         if rng.integers(0, 4) == 0:
             cfg["monitor_stats"] = ["accept_stat", "n_step"] if cfg["front_end"] == "hmc" else {"integration_transition": ["n_step"]}
         pool = [{"force_memmap": True}, {"memmap_user_dir": True, "force_memmap": True}, {"n_process": 2}, {"n_process": 3},
@@ -156,6 +158,26 @@ def check_run(obs, res, cfg, label):  # noqa: C901, PLR0912
     stats = out.statistics
     if cfg.get("front_end", "hmc") == "mcmc":
         stats = stats.get("integration_transition", {})
+    if cfg.get("front_end", "hmc") == "mcmc" and cfg.get("extra_transition"):
+        # statistics of the second statistics-bearing transition, row by row, against what that transition reported
+        xst = out.statistics.get("extra_transition")
+        mids = {(x["tag"], x["iter"]): x["stats"] for x in res["recs"] if x["kind"] == "mid"}
+        if xst is None:
+            obs.violation("stat-key-missing", "no statistics returned for the second transition ('extra_transition')")
+        else:
+            for c in range(n_chain):
+                for r, it in enumerate(rows):
+                    rep = mids.get((c, it))
+                    if rep is None:
+                        continue
+                    for key, val in rep.items():
+                        obs.count("second_transition_stat_rows")
+                        got = xst[key][c][r]
+                        want = np.asarray(val).astype(np.asarray(xst[key][c]).dtype)
+                        if not _same(got, want):
+                            obs.violation(f"stat-row-mismatch:second-transition:{label}",
+                                          f"statistic {key!r} of 'extra_transition' chain {c} row {r} = {got!r}, that transition reported "
+                                          f"{val!r} at iteration {it}; cfg={cfg}")
     tfs = res["trace_funcs"]
     if not tfs:
         if traces is not None:
@@ -294,22 +316,26 @@ def run_case(case, obs) -> None:
                 out2 = res2["out"]
                 files = sorted(Path(udir).glob("*.npy"))
                 obs.count("npy_files_reread", len(files))
-                want = {}
+                # every returned array must be the content of a file in the user's directory (matched by content: the file
+                # naming scheme is not documented)
+                returned = []
                 for key, arrs in (out2.traces or {}).items():
-                    if any(not (ch.isalnum() or ch in "._- ") for ch in key):
-                        continue  # file name of such keys is an implementation detail; contents are judged via the arrays
-                    for c, a in enumerate(arrs):
-                        want[f"trace_{c}_{key}.npy"] = np.asarray(a)
-                st2 = out2.statistics if mcfg.get("front_end", "hmc") == "hmc" else out2.statistics.get("integration_transition", {})
-                for key, arrs in st2.items():
-                    for c, a in enumerate(arrs):
-                        want[f"stats_{c}_integration_transition_{key}.npy"] = np.asarray(a)
-                names = {f.name for f in files}
-                if set(want) - names:
-                    obs.violation("memmap-files-missing", f"user memmap directory lacks {sorted(set(want) - names)[:4]}")
-                for f in files:
-                    if f.name in want and not np.array_equal(np.load(f), want[f.name], equal_nan=True):
-                        obs.violation("memmap-file-content", f"{f.name} on disk differs from the returned array; cfg={mcfg}")
+                    returned += [(f"trace {key!r} chain {c}", np.asarray(a_)) for c, a_ in enumerate(arrs)]
+                st_all = {"": out2.statistics} if mcfg.get("front_end", "hmc") == "hmc" else dict(out2.statistics)
+                for tkey, st2 in st_all.items():
+                    for key, arrs in (st2 or {}).items():
+                        returned += [(f"statistic {tkey}.{key} chain {c}", np.asarray(a_)) for c, a_ in enumerate(arrs)]
+                fcache = {}
+                if returned and not files:
+                    obs.violation("memmap-files-missing", f"user memmap directory holds no .npy file although {len(returned)} arrays were returned")
+                else:
+                    for what, a_ in returned:
+                        obs.count("npy_content_matches")
+                        if not samp.files_holding(udir, a_, fcache):
+                            obs.violation("memmap-file-content", f"no file in the user memmap directory holds the returned {what}; cfg={mcfg}")
+                            break
+                    if len(files) < len({(a_.tobytes(), a_.shape, str(a_.dtype)) for _w, a_ in returned}):
+                        obs.violation("memmap-files-missing", f"{len(files)} files for {len(returned)} returned arrays with distinct contents")
             obs.token(cfg.get("front_end"), cfg["transition"], cfg["n_chain"], tuple(cfg["adapters"]), label)
             samp.cleanup(res2)
         obs.sample({"cfg": cfg, "modes": case["modes"]})
